@@ -613,14 +613,14 @@ func runGeneric(c *Ctx, spec *PropSpec) {
 	}
 	c.Pass(spec.ID+".G5", strings.Join(pkgs, ",")+":appends-in-loops", 0, fmt.Sprintf("%d append-in-loop sites judged", napp))
 	// G6
-	c.Rule(spec.ID+".G6", "no signed remainder of a value that can be negative: a converted unsigned 64-bit value (int(h) % n) or a wrapping signed 32-bit counter (atomic.AddInt32)", 1)
+	c.Rule(spec.ID+".G6", "no remainder of a value that can be negative or of a sum that wraps: a converted unsigned 64-bit value (int(h) % n), a wrapping signed 32-bit counter (atomic.AddInt32), a 32-bit sum with an unreduced atomic counter ((c + i) % n, n not a power of two)", 1)
 	nrem := 0
 	for _, fn := range fns {
 		fs, k := negativeRemainders(fn)
 		nrem += k
 		ord := ordCounter{}
 		for _, f := range fs {
-			c.Fail(spec.ID+".G6", ord.next(fn, "negative-remainder"), f.pos, fmt.Sprintf("%s takes the remainder of a value that can be negative (an unsigned 64-bit value converted to a signed integer, or a signed 32-bit counter stepped with atomic.AddInt32, which wraps after 2^31 steps): Go's %% keeps the sign of the dividend, so the result used as an index or offset can be negative - with a hash as input that is about half of all keys, with a wrapped round-robin counter every pick of the next 2^31", fn.Name()))
+			c.Fail(spec.ID+".G6", ord.next(fn, "negative-remainder"), f.pos, fmt.Sprintf("%s takes the remainder of a value that can be negative (an unsigned 64-bit value converted to a signed integer, or a signed 32-bit counter stepped with atomic.AddInt32, which wraps after 2^31 steps) or of a 32-bit sum with an unreduced atomic counter: Go's %% keeps the sign of the dividend, so the result used as an index or offset can be negative - with a hash as input that is about half of all keys, with a wrapped round-robin counter every pick of the next 2^31; and a sum that wraps at 2^32 makes the indices of one scan non-contiguous unless the modulus is a power of two, so a scan of n steps visits one member twice and another never", fn.Name()))
 		}
 	}
 	c.Pass(spec.ID+".G6", strings.Join(pkgs, ",")+":remainders", 0, fmt.Sprintf("%d remainder operations judged", nrem))
@@ -1026,6 +1026,40 @@ func negativeRemainders(fn *ssa.Function) (out []g6Finding, sites int) {
 			if call, isCall := x.(*ssa.Call); isCall {
 				// (a 64-bit counter needs 2^63 steps to wrap - not reachable; a 32-bit one wraps within weeks at 1000 steps/s)
 				if n := calleeName(call.Common()); n == "sync/atomic.AddInt32" {
+					out = append(out, g6Finding{fn, bo.Pos()})
+					return
+				}
+			}
+		}
+		// (counter + step) % n in 32 bits: the SUM wraps at 2^32, and unless n is a power of two the residues around
+		// the wrap are not contiguous - a scan "start+1 .. start+n" probes one index twice and another never
+		if sum, isSum := bo.X.(*ssa.BinOp); isSum && sum.Op == token.ADD {
+			if b, isB := sum.Type().Underlying().(*types.Basic); isB && (b.Kind() == types.Uint32 || b.Kind() == types.Int32 || b.Kind() == types.Uint16 || b.Kind() == types.Uint8) {
+				pow2 := false
+				if k, isK := constInt(bo.Y); isK && k > 0 && k&(k-1) == 0 {
+					pow2 = true
+				}
+				var fromCounter func(v ssa.Value, d int) bool
+				fromCounter = func(v ssa.Value, d int) bool {
+					if d > 4 {
+						return false
+					}
+					switch x := v.(type) {
+					case *ssa.Call:
+						n := calleeName(x.Common())
+						return strings.HasPrefix(n, "sync/atomic.Load") || strings.HasPrefix(n, "sync/atomic.Add")
+					case *ssa.Convert:
+						return fromCounter(x.X, d+1)
+					case *ssa.Phi:
+						for _, e := range x.Edges {
+							if fromCounter(e, d+1) {
+								return true
+							}
+						}
+					}
+					return false
+				}
+				if !pow2 && (fromCounter(sum.X, 0) || fromCounter(sum.Y, 0)) {
 					out = append(out, g6Finding{fn, bo.Pos()})
 					return
 				}
